@@ -178,7 +178,7 @@ def _one_step(U, kr, objs, n, op, x, tmpdir, rng, forms):
         if op == 'load':
             form = 'obj'
             if forms:
-                form = rng.choice(['obj', 'obj', 'bin', 'asc', 'file', 'list'])
+                form = rng.choice(['obj', 'obj', 'bin', 'asc', 'file', 'list', 'bytearray', 'armored bytearray'])
             if x in objs:
                 form = 'obj'
             if form == 'obj':
@@ -195,6 +195,10 @@ def _one_step(U, kr, objs, n, op, x, tmpdir, rng, forms):
                     kr.load(U.blob[base][0])
                 elif form == 'asc':
                     kr.load(U.blob[base][1])
+                elif form == 'bytearray':
+                    kr.load(bytearray(U.blob[base][0]))
+                elif form == 'armored bytearray':
+                    kr.load([bytearray(U.blob[base][1].encode('ascii'))])
                 elif form == 'file':
                     p = os.path.join(tmpdir, 'k-%s.%s' % (base, 'asc' if n % 2 else 'gpg'))
                     with open(p, 'wb') as f:
